@@ -16,7 +16,7 @@ import (
 func init() {
 	register(&explore.Prop{
 		ID: "C15", Level: levelMC, Explorer: "E2 sequence explorer, path mode",
-		Rule: "environment = three segments (A built in memory, B persisted+loaded from a byte slice the harness keeps, M produced by a merge: 1-hit terms) and three caller bitmaps (single doc; a run-optimisable range; empty); operations = full observation of each segment, WriteTo of each, DocsMatchingTerms, a doc-value reader opened on the very slice Fields() returned, PostingsList(except=bitmap)+walk on each segment, and merges of sub-lists [A],[A,B],[B,A],[A,M],[M,B],[A,B,M] under several bitmap assignments (public Merge API and chunk-mode hook); every operation sequence of length <=3 (thorough <=4) on a fresh environment; after every operation: observation and persisted bytes of every segment, the raw byte image given to Load, and value + serialized form of every bitmap must equal the baseline; " +
+		Rule: "environment = three segments (A built in memory, B persisted+loaded from a byte slice the harness keeps, M produced by a merge: 1-hit terms) and three caller bitmaps (single doc; a run-optimisable range; empty); operations = full observation of each segment, WriteTo of each, DocsMatchingTerms, a doc-value reader opened on the very slice Fields() returned, builds of two other batches (the pooled builder is recycled), PostingsList(except=bitmap)+walk on each segment, and merges of sub-lists [A],[A,B],[B,A],[A,M],[M,B],[A,B,M] under several bitmap assignments (public Merge API and chunk-mode hook); every operation sequence of length <=3 (thorough <=4) on a fresh environment; after every operation: observation and persisted bytes of every segment, the raw byte image given to Load, and value + serialized form of every bitmap must equal the baseline; " +
 			"distinct = sequences; non-trivial = sequence contains a merge or a WriteTo followed by a re-observation (all do); states = environments built, transitions = operations",
 		Assumptions: commonAssumptions, Budget: qBudget, Run: runC15,
 	})
@@ -228,6 +228,17 @@ func c15Ops() []c15Op {
 				return errOf(msg, err)
 			}})
 		}
+	}
+	// building OTHER segments: a built segment must not share mutable state with the pooled builder
+	for bi, other := range [][]model.Doc{
+		{gen.MixDoc(3, "n", 0), gen.MixDoc(9, "n", 1), gen.MixDoc(2, "n", 2)},
+		{gen.MixDoc(4, "o", 0)},
+	} {
+		other := other
+		ops = append(ops, c15Op{fmt.Sprintf("New(other batch %d)", bi), func(e *c15Env) error {
+			_, err := build(other, 1025)
+			return err
+		}})
 	}
 	type mspec struct {
 		segs []int
